@@ -44,6 +44,11 @@ pub fn header_for(k: YKind) -> &'static str {
 }
 
 pub fn gen_case(ch: &mut Choices, tier: Tier) -> Case {
+    gen_case_with(ch, tier, None)
+}
+
+/// As `gen_case`, with an optional transformation of the decorated AG before it is rendered.
+pub fn gen_case_with(ch: &mut Choices, tier: Tier, post: Option<fn(&mut Choices, &mut AG, YKind)>) -> Case {
     let kind = *ch.choose(&[YKind::Generic, YKind::Grmtools, YKind::UserAction, YKind::Eco, YKind::NoAction, YKind::Generic]);
     let o = GenOpts {
         max_rules: tier.pick(4, 6),
@@ -59,6 +64,9 @@ pub fn gen_case(ch: &mut Choices, tier: Tier) -> Case {
     };
     let mut ag = gen_grammar(ch, &o);
     decorate(ch, &mut ag, kind);
+    if let Some(f) = post {
+        f(ch, &mut ag, kind);
+    }
     let (mut text, mut layout) = render_varied(ch, &ag, kind);
     let entry = if ch.chance(1, 3) { 1 } else { 0 };
     if entry == 1 {
@@ -106,7 +114,7 @@ impl Prop for C10 {
         900
     }
     fn cases(&self, tier: Tier) -> u32 {
-        tier.pick(30_000, 800_000)
+        tier.pick(500_000, 8_000_000)
     }
     fn decode(&self, choices: &[u32], tier: Tier) -> Value {
         let mut ch = Choices::new(choices);
@@ -529,6 +537,15 @@ impl Prop for C10 {
             return o;
         }
         let pp_in_text = text.contains("%parse-param");
+        if grm.programs().as_deref() != lay.programs.as_deref() {
+            fail(&mut o, "programs", format!("programs() {:?}, the source has {:?}", grm.programs(), lay.programs));
+            return o;
+        }
+        let exp_pg = if text.contains("%parse-generics") { Some("'a, T: Copy".to_string()) } else { None };
+        if grm.parse_generics().as_ref().map(|s| s.trim().to_string()) != exp_pg {
+            fail(&mut o, "parse-generics", format!("parse_generics() {:?}, expected {:?}", grm.parse_generics(), exp_pg));
+            return o;
+        }
         let got_pp = grm.parse_param().as_ref().map(|(a, b)| (a.trim().to_string(), b.trim().to_string()));
         let exp_pp = if pp_in_text { Some(("p".to_string(), "&'a mut u8".to_string())) } else { None };
         if got_pp != exp_pp {
